@@ -426,6 +426,49 @@ def gen_C05(rng, tier):
                 o = p.bind('%salong %s %d' % (r, t, d)); p.add('obs %s' % o)
         p.tag('large')
         progs.append(p)
+    # reducers on tensors DERIVED from a tensor that has (or has not yet) been reduced itself: every shape operation,
+    # then every reducer on the result, then the source again — a statistic is a function of the elements the tensor holds
+    # now, whatever was computed from its source before
+    for i in range(60 if tier == 'quick' else 900):
+        p = Prog('c05_d%d' % i)
+        shape = rand_shape(rng, 3, 3, 0)
+        n = prod(shape)
+        vals = distinct_vals(rng, n, rng.choice(['int', 'frac']))
+        t = p.tensor(shape, vals)
+        before = rng.random() < 0.7
+        if before:
+            for r in rng.sample(red, rng.randint(1, len(red))):
+                p.add('%s %s' % (r, t))
+        derived = []
+        lead = [rng.randint(2, 4) for _ in range(rng.randint(1, 2))]
+        derived.append(p.bind('broadcast %s %s' % (t, ints(lead + shape))))
+        if 1 in shape:
+            tgt = [d if d != 1 else rng.randint(2, 3) for d in shape]
+            derived.append(p.bind('broadcast %s %s' % (t, ints(tgt))))
+            derived.append(p.bind('squeeze %s %d' % (t, shape.index(1))))
+        derived.append(p.bind('broadcast %s %s' % (t, ints(shape) if shape else '-')))
+        derived.append(p.bind('reshape %s %s' % (t, ints([n]))))
+        derived.append(p.bind('unsqueeze %s %d' % (t, rng.randint(0, len(shape)))))
+        derived.append(p.bind('scale %s %s' % (t, f2b(2.0))))
+        if len(shape) >= 2:
+            derived.append(p.bind('transpose %s' % t))
+            derived.append(p.bind('flatten %s %d' % (t, rng.randint(0, len(shape) - 1))))
+        if shape:
+            derived.append(p.bind('concat %s,%s %d' % (t, t, rng.randrange(len(shape)))))
+            idx = rand_index(rng, shape)
+            derived.append(p.bind('slice %s %s' % (t, ranges(idx))))
+            src = p.tensor(sliced_shape(shape, idx), [100.0 + k for k in range(prod(sliced_shape(shape, idx)))])
+            derived.append(p.bind('patch %s %s %s' % (t, ranges(idx), src)))
+            derived.append(p.bind('sumalong %s %d' % (t, rng.randrange(len(shape)))))
+        rng.shuffle(derived)
+        for dv in derived[:6]:
+            for r in rng.sample(red, 4):
+                p.add('%s %s' % (r, dv))
+            p.add('obs %s' % dv)
+        for r in red:
+            p.add('%s %s' % (r, t))
+        p.tag('derived-after-reduce' if before else 'derived-before-reduce')
+        progs.append(p)
     # special values at specific positions (NaN, +-Inf, -0, huge): the folds have defined IEEE results
     SPECIAL = [float('nan'), float('inf'), float('-inf'), -0.0, 0.0, 1.7e308, -1.7e308, 1.0, -2.5]
     for i in range(40 if tier == 'quick' else 800):
